@@ -98,7 +98,7 @@ impl Parser {
         require_self_param: bool,
         allow_self_type: bool,
     ) -> Result<FunctionParameters> {
-        let mut children = input.children();
+        let mut children = input.children().peekable();
 
         let mut result: Vec<Ident> = vec![];
 
@@ -114,6 +114,10 @@ impl Parser {
             if c == 0 {
                 let ident_str = ident_node.as_str();
                 if ident_str == "self" && input.user_data().is_function_a_class_method() {
+                    if let Some(annotation) = children.next_if(|next| next.as_rule() == Rule::r#type) {
+                        return Err(new_err(annotation.as_span(), &file_name, "`self` is the instance the method is called on and cannot be given a type".to_owned()));
+                    }
+
                     if add_to_scope_dependencies {
                         let ident = Ident::new(
                             "self".to_owned(),
